@@ -201,10 +201,13 @@ def server_run(cfg, tmax, exact, seed, workdir, nreq_rng, yield_site):
         isb = refd.get(k) == d or (k == ref_steps and d == ref_after)
         cont = None
         if k <= ref_steps:
-            if s.t < tmax:
+            if s.t < tmax - 1e-12 * abs(tmax):
                 s.integrate(tmax, exact_finish_time=exact)
             else:
-                s.synchronize()        # already at (or one overshoot past) the target: integrate() would step back
+                # already at the target (to within the 1e-12 by which integrate() itself accepts the final, shortened step) or one overshoot past
+                # it: the run this snapshot was taken from only synchronises from here; a fresh integrate() call would take one more step of a
+                # rounding error's length or step back
+                s.synchronize()
             cont = final_digest(s) == ref_final
         served.append({"steps": k, "boundary": isb, "cont": bool(cont), "size": len(b)})
         os.remove(fn)
